@@ -911,7 +911,7 @@ class Engine:
         pc2 = [z3.substitute(e, *sub) for e in st.pc]
         if s.sat(st.pc + pc2, c != c2):
             st.model = s.last_model
-            raise Violation('uninit', 'decision depends on uninitialised memory (%s)' % ', '.join(sorted(k for k in z3vars(c) if k.startswith('undef!'))[:4]))
+            raise Violation('uninit', 'decision depends on uninitialised memory in ' + st.frames[-1].fn[:120])
 
     def assume(s, st, c):
         """c: z3 Bool. returns False if path becomes infeasible"""
